@@ -380,6 +380,108 @@ def r4(repo, res):
            found="ok" if ok else "header not guarded by is_aldy", key="dispatch:header")
 
 
+def r5(repo, res):
+    """Decomposition rows: lifted writer folded on a sample solution with a recording print."""
+    import collections as _c
+
+    f = repo.func("diplotype::write_decomposition")
+    Mut = _c.namedtuple("Mutation", ["pos", "op"])
+    F1, S1, S2, AD = Mut(250, "C>T"), Mut(150, "T>A"), Mut(350, "G>A"), Mut(450, "insA")
+    minor = lambda muts: Obj(neutral_muts=set(muts))  # noqa
+    gene = Obj(name="G", alleles={"1": Obj(func_muts=set(), minors={"1.001": minor([]), "1.002": minor([S1])}),
+                                  "3": Obj(func_muts={F1}, minors={"3.001": minor([S2])})},
+               get_functional=lambda m, infer=True: {F1: "P34S"}.get(Mut(*m)),
+               get_rsid=lambda m, default=True: {F1: "rs1", S1: "rs2"}.get(Mut(*m), "-"))
+    sol = [Obj(major="1", minor="1.001", added=[], missing=[]), Obj(major="1", minor="1.002", added=[AD], missing=[]),
+           Obj(major="3", minor="3.001", added=[], missing=[S2])]
+    msol = Obj(solution=sol, get_major_diplotype=lambda: "*1 / *1 + *3")
+    support = {F1: 11, S1: 12, S2: 0, AD: 4}
+    rows = []
+
+    def pr(*a, sep=" ", end="\n", file=None):
+        rows.append(sep.join(str(x) for x in a))
+
+    def hook(node, ev):
+        if isinstance(node, ast.Subscript) and isinstance(node.value, ast.Name) and node.value.id == "coverage":
+            return support.get(ev.ev(node.slice), 0)
+        return NotImplemented
+
+    try:
+        k, v = Evaluator({"sample": "S", "gene": gene, "sol_id": 7, "minor": msol, "f": "FILE"}, funcs={"print": pr}, hook=hook).run(
+            [s_ for s_ in f.body if not (isinstance(s_, ast.Expr) and isinstance(s_.value, ast.Constant))])
+    except (Unfoldable, Raised) as e:
+        res.err("C12.R5", f"write_decomposition outside the folding language: {e}")
+        return
+    cells = [r.split("\t") for r in rows]
+    by_copy = {}
+    for c in cells:
+        if len(c) >= 12:
+            by_copy.setdefault(c[5], []).append(c)
+    want = {"0": [("", "", "", "")], "1": [("150", "T>A", "12", "rs2"), ("450", "insA", "4", "-")], "2": [("250", "C>T", "11", "rs1")]}
+    got = {k_: [(c[7], c[8], c[9], c[11]) for c in v_] for k_, v_ in by_copy.items()}
+    ok = got == want and all(c[0] == "S" and c[1] == "G" and c[2] == "7" and c[3] == "*1/*1+*3" and c[4] == "1.001;1.002;3.001" for c in cells) \
+        and [c[6] for c in cells] == ["1.001", "1.002", "1.002", "3.001"] \
+        and [c[10] for c in cells if c[5] == "2"] == ["P34S"] and all(c[10] == "none" for c in cells if c[5] == "1")
+    res.ob("C12.R5", f, f, k != "raise" and ok,
+           expected="per copy: one row per carried variant with its 0-based position, change, read support, effect ('none' if silent) and dbSNP id, "
+                    "under the solution's diplotype and minor list; a copy without variants gets one empty row",
+           found=str(got) if not ok else f"{len(cells)} rows agree",
+           clause="each with its position, change, read support, effect and dbSNP id ...; copies without variants get one empty row",
+           key="decomposition-rows")
+
+
+def r6(repo, res):
+    """VCF records of one solution made of substitutions only (where the three known defects cannot show): folded writer."""
+    import collections as _c
+
+    f = repo.func("diplotype::write_vcf")
+    Mut = _c.namedtuple("Mutation", ["pos", "op"])
+    F1, S1, S2 = Mut(250, "C>T"), Mut(150, "T>A"), Mut(350, "G>A")
+    minor = lambda muts: Obj(neutral_muts=set(muts))  # noqa
+    gene = Obj(name="G", chr="22", alleles={"1": Obj(func_muts=set(), minors={"1.002": minor([S1])}),
+                                            "3": Obj(func_muts={F1}, minors={"3.001": minor([S2])})},
+               get_functional=lambda m, infer=True: {F1: "P34S"}.get(Mut(*m)),
+               get_rsid=lambda m, default=True: {F1: "rs1", S1: "rs2"}.get(Mut(*m), f"{m[0] + 1}.{m[1]}" if default else "-"))
+    sol = [Obj(major="1", minor="1.002", added=[], missing=[]), Obj(major="3", minor="3.001", added=[], missing=[])]
+    minors = [Obj(solution=sol, get_major_diplotype=lambda: "*1 / *3")]
+    support = {F1: 11, S1: 12, S2: 9}
+    out = []
+
+    def pr(*a, sep=" ", end="\n", file=None):
+        out.append(sep.join(str(x) for x in a))
+
+    def hook(node, ev):
+        if isinstance(node, ast.Subscript) and isinstance(node.value, ast.Name) and node.value.id == "coverage":
+            return support.get(ev.ev(node.slice), 0)
+        return NotImplemented
+
+    try:
+        k, v = Evaluator({"sample": "S", "gene": gene, "minors": minors, "f": "FILE", "version": "0"},
+                         funcs={"print": pr, "td": lambda t: t, "collections.defaultdict": _c.defaultdict}, hook=hook).run(
+            [s_ for s_ in f.body if not (isinstance(s_, ast.Expr) and isinstance(s_.value, ast.Constant))])
+    except (Unfoldable, Raised) as e:
+        res.err("C12.R6", f"write_vcf outside the folding language: {e}")
+        return
+    recs = [r.split("\t") for r in out[1:]] if len(out) > 1 else []
+    head = out[0].splitlines()[-1].split("\t") if out else []
+    want = [["22", "151", "rs2", "T", "A", "1|0", "12", "*1,-", "*1.002,-"],
+            ["22", "251", "rs1", "C", "T", "0|1", "11", "-,*3", "-,*3.001"],
+            ["22", "351", "-", "G", "A", "0|1", "9", "-,*3", "-,*3.001"]]
+    got = []
+    for r in recs:
+        if len(r) >= 10:
+            fmt = r[8].split(":")
+            val = dict(zip(fmt, r[9].split(":")))
+            got.append(r[:5] + [val.get("GT"), val.get("DP"), val.get("MA"), val.get("MI")])
+    ok = k != "raise" and got == want and len(head) == 10 and head[:2] == ["#CHROM", "POS"] and head[9].startswith("S:0:")
+    res.ob("C12.R6", f, f, ok,
+           expected="one record per carried variant in position order: CHROM, one-based POS, dbSNP id, REF, ALT, and per solution GT / DP / MA / MI "
+                    "naming exactly the carrying copies; one sample column per solution",
+           found="3 records agree" if ok else f"{got}; header {head[-2:]}",
+           clause="the genotype of allele copy i at a variant is 1 exactly if that copy is reported to carry the variant; the MA/MI fields name exactly the carrying copies",
+           key="vcf-records:substitutions")
+
+
 def _parents(n):
     p = getattr(n, "_parent", None)
     while p is not None:
@@ -401,6 +503,8 @@ def run(repo, res):
     r2(repo, res)
     r3(repo, res)
     r4(repo, res)
+    r5(repo, res)
+    r6(repo, res)
 
 
 MUTANTS = [
@@ -432,6 +536,20 @@ MUTANTS = [
     dict(name="R4 GT read with fixed solution 0", module="diplotype", expect="C12.R4",
          old='"GT": "|".join(str(all_mutations[m][mi][i]) for i in range(nall)),',
          new='"GT": "|".join(str(all_mutations[m][0][i]) for i in range(nall)),'),
+    dict(name="R6 MA and MI swapped in the record", module="diplotype", expect=["C12.R6", "C12.R4"],
+         old='"MA": ",".join(\n                        f"*{minor.solution[i].major}"', new='"MA": ",".join(\n                        f"*{minor.solution[i].minor}"'),
+    dict(name="R6 ID column holds the position-based name", module="diplotype", expect="C12.R6",
+         old="                id=gene.get_rsid(m, default=False),", new="                id=gene.get_rsid(m),"),
+    dict(name="R6 records in set order", module="diplotype", expect=["C12.R6", "C14.R3"],
+         old="    for m in sorted(all_mutations):", new="    for m in all_mutations:"),
+    dict(name="R5 read support of the wrong variant", module="diplotype", expect="C12.R5",
+         old="                        coverage[m],\n                        fn if fn else \"none\",", new="                        coverage[sorted(mutations)[0]],\n                        fn if fn else \"none\","),
+    dict(name="R5 no empty row for a copy without variants", module="diplotype", expect="C12.R5",
+         old="        if len(mutations) > 0:\n            for m in sorted(mutations):", new="        if True:\n            for m in sorted(mutations):"),
+    dict(name="R5 copy index shifted", module="diplotype", expect="C12.R5",
+         old="                        copy,\n                        a.minor,\n                        m.pos,", new="                        copy + 1,\n                        a.minor,\n                        m.pos,"),
+    dict(name="R5 dbSNP column shows the effect", module="diplotype", expect="C12.R5",
+         old="                        gene.get_rsid(m, default=False),\n                        \"\",\n                    ]", new="                        fn if fn else \"none\",\n                        \"\",\n                    ]"),
     # benign
     dict(name="benign: one-expression carried set", module="diplotype", kind="benign",
          old="""        mutations = set(gene.alleles[a.major].func_muts) | set(
